@@ -150,6 +150,11 @@ INC_TOK = {"NO": "<noinclude>", "NC": "</noinclude>", "IO": "<includeonly>", "IC
            "OC": "</onlyinclude>", "OS": "<onlyinclude/>", "CO": "<!--", "CC": "-->"}
 
 
+# second spelling: upper / mixed case and blanks inside the tags (tag names are case-insensitive)
+INC_TOK_UP = {"NO": "<NOINCLUDE>", "NC": "</NoInclude >", "IO": "<IncludeOnly>", "IC": "</INCLUDEONLY>", "OO": "<OnlyInclude >",
+              "OC": "</ONLYINCLUDE>", "OS": "<ONLYINCLUDE/>", "CO": "<!--", "CC": "-->"}
+
+
 def inc_chunk(chunk):
     common.use_repo()
     res = []
@@ -157,10 +162,11 @@ def inc_chunk(chunk):
         ctx = new_ctx(d)
         try:
             for idx, toks in chunk:
-                body = "".join(INC_TOK.get(t, t) for t in toks)
-                ctx.add_page("Template:X", 10, body=body)
-                p = ctx.get_page("X", 10)
-                res.append((idx, body, p.body if p else None))
+                for table in (INC_TOK, INC_TOK_UP):
+                    body = "".join(table.get(t, t) for t in toks)
+                    ctx.add_page("Template:X", 10, body=body)
+                    p = ctx.get_page("X", 10)
+                    res.append((idx, body, p.body if p else None, table is INC_TOK_UP))
         finally:
             ctx.db_conn.close()
     return res
@@ -174,10 +180,10 @@ def run_includable(o: Outcome, thorough: bool):
         r = tlc("Gen_Includable", f"Gen_Includable_{mode}_{'T' if thorough else 'Q'}.cfg", workers=1, timeout=3000)
         o.add_tlc(f"Gen_Includable[{mode}] law+cases", r)
         cases = r.cases
-        for idx, body, got in pmap(inc_chunk, [(i, c["toks"]) for i, c in enumerate(cases)]):
+        for idx, body, got, up in pmap(inc_chunk, [(i, c["toks"]) for i, c in enumerate(cases)]):
             c = cases[idx]
             o.evaluations += 1
-            exp = "".join(INC_TOK.get(t, t) for t in c["out"])
+            exp = "".join((INC_TOK_UP if up else INC_TOK).get(t, t) for t in c["out"])
             if got == exp:
                 if c["wf"]:
                     o.shape(("inc", body))
